@@ -27,7 +27,7 @@ def configs(tier, seed):
         fm = [(s, n, f) for s in (True, False) for n in range(1, 13) for f in sorted(set([-2, -1, 0, 1, n // 2, n - 1, n, n + 1]))] + _fm_big() + \
             C.pick(C.formats_core(), 40, rng)
     out = []
-    npairs = 260 if tier == 'quick' else 2600
+    npairs = 260 if tier == 'quick' else 12000
     for _ in range(npairs):
         src, dst = rng.choice(fm), rng.choice(fm)
         if rng.random() < 0.4:
